@@ -137,3 +137,84 @@ package priority
 //@   ensures [* C01 C15] msum(dsc.tactic) == 0 && (forall k :: dsc.tactic[k] == 0)
 //@   loop 0
 //@     invariant [*] forall k :: in($visited, k) ==> dsc.tactic[k] == 0
+
+//@ func (*Discipline).calcTacticByAddUpToStrategic
+//@   requires [*] WF(dsc)
+//@   modifies content(dsc.tactic)
+//@   ensures [* C01] result ==> msum(dsc.tactic) == vacants
+//@   assume-arith add-overflow[2]
+//@   loop 0
+//@     invariant [*] picked == msum(dsc.tactic)
+//@     invariant [*] forall j :: $i <= j && j < len(dsc.priorities) ==> dsc.tactic[dsc.priorities[j]] == 0
+
+//@ func (*Discipline).updateUncrowded
+//@   requires [*] WF(dsc)
+//@   ensures [*] WF(dsc)
+//@   modifies dsc.uncrowded, anyelems(dsc.uncrowded)
+//@   ensures [* C15] strictlyDesc(dsc.uncrowded) && allIn(dsc.uncrowded, gPset)
+//@   ensures [*] dsc.uncrowded.arr == 0 || dsc.uncrowded.arr != dsc.priorities.arr
+//@   loop 0
+//@     invariant [*] strictlyDesc(dsc.uncrowded) && allIn(dsc.uncrowded, gPset) && len(dsc.uncrowded) <= $i
+//@     invariant [*] dsc.uncrowded.arr == 0 || (dsc.uncrowded.arr != dsc.priorities.arr && allocated(dsc.uncrowded.arr))
+//@     invariant [*] forall j :: ($i <= j && j < len(dsc.priorities) && len(dsc.uncrowded) > 0) ==> dsc.uncrowded[len(dsc.uncrowded) - 1] > dsc.priorities[j]
+
+//@ func (*Discipline).updateUseful
+//@   requires [*] WF(dsc)
+//@   ensures [*] WF(dsc)
+//@   modifies dsc.useful, anyelems(dsc.useful)
+//@   ensures [* C15] strictlyDesc(dsc.useful) && allIn(dsc.useful, gPset)
+//@   ensures [*] dsc.useful.arr == 0 || dsc.useful.arr != dsc.priorities.arr
+//@   loop 0
+//@     invariant [*] strictlyDesc(dsc.useful) && allIn(dsc.useful, gPset) && len(dsc.useful) <= $i
+//@     invariant [*] dsc.useful.arr == 0 || (dsc.useful.arr != dsc.priorities.arr && allocated(dsc.useful.arr))
+//@     invariant [*] forall j :: ($i <= j && j < len(dsc.priorities) && len(dsc.useful) > 0) ==> dsc.useful[len(dsc.useful) - 1] > dsc.priorities[j]
+
+//@ func (*Discipline).updateUsefulLikeUncrowded
+//@   requires [*] WF(dsc)
+//@   ensures [*] WF(dsc)
+//@   modifies dsc.useful, anyelems(dsc.useful)
+//@   ensures [* C15] strictlyDesc(dsc.useful) && allIn(dsc.useful, gPset)
+//@   ensures [*] dsc.useful.arr == 0 || dsc.useful.arr != dsc.priorities.arr
+//@   loop 0
+//@     invariant [*] strictlyDesc(dsc.useful) && allIn(dsc.useful, gPset) && len(dsc.useful) <= $i
+//@     invariant [*] dsc.useful.arr == 0 || (dsc.useful.arr != dsc.priorities.arr && allocated(dsc.useful.arr))
+//@     invariant [*] forall j :: ($i <= j && j < len(dsc.priorities) && len(dsc.useful) > 0) ==> dsc.useful[len(dsc.useful) - 1] > dsc.priorities[j]
+
+//@ func (*Discipline).isTacticFilled
+//@   requires [*] dsc != nil && dsc.tactic != nil
+//@   ensures [*] true
+
+//@ func (*Discipline).calcTacticBase
+//@   requires [*] WF(dsc)
+//@   ensures [*] WF(dsc)
+//@   requires [* C15] vacants <= gH
+//@   modifies content(dsc.tactic), dsc.uncrowded, anyelems(dsc.uncrowded), gDivErr
+//@   ensures [* C01] result1 == nil ==> (msum(dsc.tactic) == 0 || msum(dsc.tactic) == vacants)
+//@   ensures [C15] (gDivErr && !old(gDivErr)) ==> result1 == ErrDividerBad
+//@   ensures [C15] old(gDivErr) ==> gDivErr
+//@   ensures [*] dsc.uncrowded.arr == 0 || dsc.uncrowded.arr != dsc.priorities.arr
+
+//@ func (*Discipline).calcTactic
+//@   requires [*] WF(dsc)
+//@   ensures [*] WF(dsc)
+//@   modifies content(dsc.tactic), dsc.uncrowded, anyelems(dsc.uncrowded), gDivErr
+//@   ensures [* C01] (result1 == nil && result0) ==> RINV(dsc)
+//@   ensures [C15] (gDivErr && !old(gDivErr)) ==> result1 == ErrDividerBad
+//@   ensures [C15] old(gDivErr) ==> gDivErr
+//@   ensures [*] dsc.uncrowded.arr == 0 || dsc.uncrowded.arr != dsc.priorities.arr
+
+//@ func (*Discipline).getOneFeedback
+//@   requires [*] WF(dsc)
+//@   modifies content(dsc.actual), gInfl, gInflP, gClock
+//@   ensures [*] WF(dsc)
+
+//@ func (*Discipline).waitCalcTactic
+//@   requires [*] WF(dsc)
+//@   modifies content(dsc.tactic), content(dsc.actual), dsc.uncrowded, anyelems(dsc.uncrowded), gDivErr, gInfl, gInflP, gClock
+//@   ensures [*] WF(dsc)
+//@   ensures [* C01] result == nil ==> RINV(dsc)
+//@   ensures [C15] (gDivErr && !old(gDivErr)) ==> result == ErrDividerBad
+//@   ensures [C15] old(gDivErr) ==> gDivErr
+//@   loop 0
+//@     invariant [*] WF(dsc)
+//@     invariant [C15] gDivErr == old(gDivErr)
